@@ -606,6 +606,31 @@ func streamC08(r *Rand, n int, o *Out) {
 			}
 		}
 	}
+	// IPv4 tails: every part position x boundary values of the part, incl. the windows in which a fixed-width accumulator
+	// wraps (2^31, 2^32, 2^63, 2^64, 2^128 and their neighbours, values that are small again modulo 2^k)
+	v4parts := []string{"0", "00", "1", "9", "10", "99", "100", "199", "249", "255", "256", "260", "299", "300", "999", "1000", "0255", "1e1", "0x1", "",
+		"2147483647", "2147483648", "2147483649", "4294967295", "4294967296", "4294967297", "4294967551", "4294967552",
+		"9223372036854775807", "9223372036854775808", "9223372036854775809", "92233720368547758085", "18446744073709551615", "18446744073709551616",
+		"18446744073709551617", "18446744073709551871", "18446744073709551872", "36893488147419103233", "340282366920938463463374607431768211456",
+		"340282366920938463463374607431768211457", "99999999999999999999999999999999999999999"}
+	for pos := 0; pos < 4; pos++ {
+		for _, pv := range v4parts {
+			parts := []string{"1", "2", "3", "4"}
+			parts[pos] = pv
+			for _, pre := range []string{"::", "::ffff:", "1:2:3:4:5:6:", "1::"} {
+				tt := pre + strings.Join(parts, ".")
+				leafSimple(o, "L6", xs(tt), recovered(func() string { return hostRes(url.VerifParseIPv6(tt)) }))
+				if pre == "::" {
+					h := &Hist{}
+					h.ParsePkg("http://[" + tt + "]/")
+					if k := h.ParsePkg("sc://x/"); k >= 0 {
+						h.Set(k, 4, "["+tt+"]")
+					}
+					o.EmitHist("b", h)
+				}
+			}
+		}
+	}
 	for _, t := range []string{"::1", "1::", "::", "1:2:3:4:5:6:7:8", "::1.2.3.4", "1::2"} {
 		for _, b := range brackets(t) {
 			h := &Hist{}
